@@ -3,6 +3,7 @@ import GBS.Model.Gen
 import GBS.Model.Mixture
 import GBS.Model.SysGen
 import GBS.Model.FF
+import GBS.Model.Parse
 /-! JSON codecs for the line protocol (driver only; not part of the verified model). -/
 open Lean
 namespace GBS.Driver
@@ -125,5 +126,46 @@ def mixToJson (m : Mix) : Json :=
 
 def compOf (j : Json) : R SysComp := do
   pure { els := ← listOf elementOf (← getF j "els"), rel := ← ratOf (← getF j "rel"), generable := ← boolOf (← getF j "gen") }
+
+open GBS.P in
+def pdescToJson (p : PDesc) : Json :=
+  (descToJson p.d).setObjVal! "pre" (Json.str (String.ofList p.pre)) |>.setObjVal! "num" (natToJson p.num)
+    |>.setObjVal! "noatom" (Json.bool p.noAtom)
+
+open GBS.P in
+def ptokenToJson (t : PToken) : Json :=
+  Json.mkObj [
+    ("els", Json.arr (t.els.map fun e => match e with
+      | .atom a => Json.mkObj [("a", Json.str (String.ofList a))]
+      | .str x => Json.mkObj [("s", Json.str (String.ofList x))]
+      | .bond k => Json.mkObj [("b", natToJson k)]).toArray),
+    ("atoms", Json.arr (t.atoms.map fun a => Json.str (String.ofList a)).toArray),
+    ("descs", Json.arr (t.descs.map pdescToJson).toArray),
+    ("res", natToJson t.resId),
+    ("ext", Json.str (String.ofList (printToken t true))),
+    ("noext", Json.str (String.ofList (printToken t false))),
+    ("frag", Json.str (String.ofList (fragment t)))]
+
+open GBS.P in
+def pdistToJson (d : PDist) : Json :=
+  Json.mkObj [("fam", Json.str (famText d.fam)), ("params", ratsToJson d.params)]
+
+open GBS.P in
+def pstochToJson (o : PStoch) : Json :=
+  Json.mkObj [("left", pdescToJson o.left), ("right", pdescToJson o.right),
+    ("rep", Json.arr (o.repeats.map ptokenToJson).toArray), ("end", Json.arr (o.ends.map ptokenToJson).toArray),
+    ("dist", match o.dist with | none => Json.null | some d => pdistToJson d),
+    ("ext", Json.str (String.ofList (printStoch o true))), ("noext", Json.str (String.ofList (printStoch o false)))]
+
+open GBS.P in
+def pmolToJson (m : PMol) : Json :=
+  Json.mkObj [
+    ("elems", Json.arr (m.elems.map fun e => match e with
+      | .tok t => Json.mkObj [("k", "tok"), ("v", ptokenToJson t)]
+      | .stoch o => Json.mkObj [("k", "stoch"), ("v", pstochToJson o)]).toArray),
+    ("mix", match m.mix with
+      | none => Json.null
+      | some x => Json.mkObj [("abs", optRatToJson x.abs), ("rel", optRatToJson x.rel)]),
+    ("ext", Json.str (String.ofList (printMol m true))), ("noext", Json.str (String.ofList (printMol m false)))]
 
 end GBS.Driver
